@@ -20,9 +20,9 @@ type Entry struct {
 	Schema *parquet.Schema
 	HasMap bool // contains Go maps: entry order is unspecified, compare values not streams
 	Shape  string // set for types that stand for one particular field shape: part of the failure keys
-	// OpenReadBack: set for a shape whose files no reader API can give back as Go values, a
-	// reported defect outside the property that uses the type: errors of Reconstruct / Read[T] are
-	// recorded as observations under this key; every other oracle applies in full.
+	// OpenReadBack: set for a shape whose files no reader API can give back as Go values (a
+	// recorded defect, see known_findings.json): errors of Reconstruct / Read[T] are reported
+	// as L1 failures under this key prefix; every other oracle applies in full.
 	OpenReadBack string
 
 	// GenericWriter[T]: batches gives the number of rows per Write call (0 = Flush), the rest in one call
